@@ -168,6 +168,22 @@ func buildHistory(c *core.Ctx, prop string, idx int, kind string) *histCase {
 					hc.addStmt(ins, st)
 				}
 			}
+			if i >= 7 && r.Chance(1, 5) {
+				// with a two-level catalog: one statement that moves a table's
+				// root (its catalog row then lives in a catalog leaf, not in the
+				// catalog's root); for C11 the move is then redone by log replay
+				t := h.DB.Tables[r.Intn(len(h.DB.Tables))]
+				if len(t.Rows) < 9 {
+					ins := h.Insert(t, r.Range(9, 14))
+					if f, _, _, err := h.DB.Apply(ins); f == "" && err == nil {
+						hc.addStmt(ins, st)
+						if prop == "C11" {
+							hc.crashRecover()
+						}
+						observe(true, 1, 0)
+					}
+				}
+			}
 			if r.Chance(1, 15) {
 				hc.reopen()
 			}
